@@ -3,3 +3,5 @@ from . import specs  # noqa
 from . import c_closest  # noqa
 from . import geom  # noqa
 from . import c_cdiffraction  # noqa
+from . import c_blobs  # noqa
+from . import c_connectedpixels  # noqa
